@@ -109,7 +109,8 @@ Theorem joins_ignore_chunking t lk rk cond nl nr L L' R R' :
   x_mergejoin t lk rk nl nr L R = x_mergejoin t lk rk nl nr L' R'.
 Proof. intros HL HR. unfold x_hashjoin, x_nljoin, x_mergejoin. rewrite HL, HR. auto. Qed.
 
-(** INT vs BIGINT keys (known finding): SQL equality holds, the hash join never matches *)
+(** INT vs BIGINT keys compared as they are: SQL equality holds, the hash join never matches — the reason
+    executor::build widens mixed key pairs ([wide_keys], Proofs/WideKeysP.v) *)
 Theorem int_width_keys_refuted :
   let L := [[ [DI32 1] ]] in let R := [[ [DI64 1] ]] in
   x_nljoin JInner (SEq (SCol 0) (SCol 1)) 1 L R = Some [[DI32 1; DI64 1]] /\
